@@ -64,8 +64,25 @@ CLAIMS = {
          'kcoreness_centrality_bu/_bd, nestedness and the peel-order outputs are bounded only (all graphs n<=5/4, every k, subset-enumeration oracle).',
          PROOF_NOTE + ' Lemmas lemma_masked_degree, lemma_degree_monotone and the callee contracts of degrees_und/degrees_dir/strengths_und are assumed (code-independent statements).',
          'pyvc + z3 with ghost state and a Skolem set for maximality; bounded subset-enumeration oracle for the coreness routines', '5/C15'),
+ 'C02': ('proof',
+         'Deductive (pyvc+z3) for modularity_finetune_und and modularity_finetune_dir, whole function bodies, all networks with positive total weight (symmetric for _und), all gamma, all start '
+         'partitions with arbitrary labels, all visiting orders: the returned labels are exactly 1..k (np.unique rank contract) and the returned q equals the modularity Q(W, ci, gamma) of the '
+         'returned labels: the aggregation loops are proved to build the module-by-module aggregate, and the code-independent identity q_from_aggregate (trace(w)/s - gamma sum(w/s . w/s) = Q; '
+         'proved in Lean, DESIGN Appendix A.2) closes the gap. All other detectors (Louvain family incl. hierarchy levels, signed variants, probtune, community_louvain objectives, spectral '
+         'modularity_und/_dir and the given-partition branches) are bounded only: independent O(n^2) reference formulas on all graphs n<=4 (weights {0,1,2}), all start partitions, all visiting '
+         'orders n<=4, gamma in {.8,1,1.3}, all qtypes.',
+         PROOF_NOTE + ' Modularity lemmas (gain, q_from_aggregate, relabelling, node-to-module sum identities) are assumed in SMT and proved separately in Lean; nonlinear products kept uninterpreted.',
+         'pyvc + z3 + Lean-proved modularity identities for finetune_und/_dir; bounded independent-reference check for the remaining detectors', '5/C02'),
+ 'C07': ('proof',
+         'Deductive (pyvc+z3) for modularity_finetune_und and modularity_finetune_dir: loop invariant KInv (node-to-module sums knm, node degrees, module degrees equal their definitions for the '
+         'current labels: established by the initialisation loops, preserved by every move via the single-label-change update axioms) and Q(current labels) >= Q(start labels): the gain the '
+         'code computes is proved equal to the expression of the gain lemma (Qraw_move + nm_modularity, proved in Lean, DESIGN Appendix A), a move is accepted only if it exceeds 1e-10, hence '
+         'every accepted move raises Q; the final relabelling does not change Q. The Louvain family, the signed variants and community_louvain are bounded only: a monitor woven into the real '
+         'functions compares the claimed gain of every move with the exact change of an independent reference Q (all graphs n<=4, all start partitions, all visiting orders, hierarchy levels).',
+         PROOF_NOTE + ' Gain lemma and sum identities assumed in SMT (Lean-proved); nonlinear products kept uninterpreted with sign axioms for quotients.',
+         'pyvc + z3 + gain lemma for finetune_und/_dir; woven per-move gain monitor over exhaustive small scopes (bounded) for the other optimisers', '5/C07'),
 }
-for _pid in ['C02', 'C03', 'C04', 'C07', 'C08', 'C09', 'C10', 'C12', 'C14', 'C16', 'C18', 'C19', 'C20']:
+for _pid in ['C03', 'C04', 'C08', 'C09', 'C10', 'C12', 'C14', 'C16', 'C18', 'C19', 'C20']:
     CLAIMS[_pid] = ('exploration', BND + 'See DESIGN.md section 5/%s for the clauses and why the deductive tier does not (yet) reach them.' % _pid,
                     BND_NOTE % _pid, 'runtime contracts on the real code over exhaustive small scopes (bounded stand-in)', '5/' + _pid)
 NOT_YET = 'check not built yet in this round (see DESIGN.md section 10); no claim is made'
@@ -101,7 +118,7 @@ def main():
             'add_only': True,
         },
         'engines': [
-            {'name': 'pyvc', 'path': 'engine/pyvc', 'serves_properties': ['C01', 'C06', 'C11', 'C15', 'C17'], 'kind_free_text': 'AST -> verification conditions -> z3/cvc5 over the real source, sidecar contracts (deductive, unbounded)'},
+            {'name': 'pyvc', 'path': 'engine/pyvc', 'serves_properties': ['C01', 'C02', 'C06', 'C07', 'C11', 'C15', 'C17'], 'kind_free_text': 'AST -> verification conditions -> z3/cvc5 over the real source, sidecar contracts (deductive, unbounded)'},
             {'name': 'pyframe', 'path': 'engine/pyframe', 'serves_properties': ['C05', 'C13'], 'kind_free_text': 'static frame (mutation/alias) and effect (RNG) obligations over the real AST'},
             {'name': 'lean', 'path': 'engine/lean', 'serves_properties': [], 'kind_free_text': 'Lean 4 + Mathlib lemma library for finite sums/modularity identities'},
             {'name': 'weave', 'path': 'engine/weave.py', 'serves_properties': sorted(CLAIMS), 'kind_free_text': 'bounded stand-in: the same contracts executed on the real functions over exhaustive small scopes with a scripted RandomState'},
